@@ -149,6 +149,18 @@ theorem order_rows_complete :
 other): at 1.5 the directions use rows 1 and 2 -- the probe condition is false -/
 example : OrderProbe.ok { label := "1.5", value := some (3 / 2), param := 36, toRows := [1], fromRows := [0, 2] } = false := by decide +kernel
 
+/-- **`signatures_are_documented`**: the parameter order of the public `to_si` / `from_si` and of the enum methods is the documented one
+(callers pass `mass_units, pressure_units, darcy_weisbach, reaction_order` positionally); read by `inspect` on every run -/
+theorem signatures_are_documented :
+    Gen.signatures =
+      [("to_si", ["from_units", "data", "param", "mass_units", "pressure_units", "darcy_weisbach", "reaction_order"]),
+       ("from_si", ["to_units", "data", "param", "mass_units", "pressure_units", "darcy_weisbach", "reaction_order"]),
+       ("HydParam._to_si", ["self", "flow_units", "data", "darcy_weisbach"]),
+       ("HydParam._from_si", ["self", "flow_units", "data", "darcy_weisbach"]),
+       ("QualParam._to_si", ["self", "flow_units", "data", "mass_units", "reaction_order"]),
+       ("QualParam._from_si", ["self", "flow_units", "data", "mass_units", "reaction_order"])] := by
+  decide +kernel
+
 /-! ### containers -/
 
 theorem data_labels_preserved (g : XVal → XVal) (d : Data) : (d.map g).labels = d.labels := by
